@@ -1,14 +1,19 @@
 // Concurrent round of engine "events" (property C09): event queries run from several goroutines
 // (as the RPC handlers do) for the whole lifetime of a writer that stores blocks and reorgs back and
-// forth across the 8191|8192 window boundary. The monitors are the specification's invariants
-// restricted to what is well defined under concurrency:
-//   - QueryExact on the STABLE range (blocks the writer never touches): every answer, for every
-//     chunk size / scan limit, equals the naive scan - no omission while the index is being changed;
-//   - every event returned for ANY range is an event of some version of its block that existed, with
-//     that version's block hash and transaction hash, in chain order, without duplicates;
-//   - at quiescence (writer finished) QueryExact / NoFalseNegative hold again for every single-atom
-//     filter, before and after a restart - nothing a concurrent query did (e.g. caching a window
-//     that was being replaced) may outlive the reorg.
+// forth across the 8191|8192 window boundary.
+//
+// C09 does not quantify over schedules, so only what the statement itself demands is a VERDICT:
+//   (V1) a query over a STABLE range - blocks that no concurrent Store/RevertHead touches - equals the
+//        naive scan for every chunk size / scan limit ("no matching event is ever omitted because of
+//        the index"): the index is being changed next to it, the queried blocks are not;
+//   (V2) what is observable SEQUENTIALLY: a query issued by the writer itself between two of its calls
+//        (the chain is fixed then) and the queries after the writer has finished, before and after a
+//        restart, are exact - nothing a concurrent query did (e.g. caching a window that was being
+//        replaced) may outlive the reorg;
+//   (V3) a panic of the real code.
+// Everything about a query whose range OVERLAPS blocks that are stored/reverted while it runs (an
+// event that belongs to no version of its block, order, duplicates, non-termination) and watchdog
+// time-outs are OBSERVATIONS: recorded in the result (stats "observations"), never a divergence.
 // A query that fails with an error while the chain is being reorganised is tolerated (counted).
 package events
 
@@ -96,16 +101,48 @@ func TestEventsConcurrent(t *testing.T) {
 		in.Readers = 3
 	}
 	var queries, tolerated, stableChecks atomic.Int64
+	obs := &observations{}
 	for round := 0; round < in.Rounds; round++ {
-		concurrentRound(&in, round, out, &queries, &tolerated, &stableChecks)
+		concurrentRound(&in, round, out, obs, &queries, &tolerated, &stableChecks)
 		out.Done(1, 0)
 	}
+	out.Stats["observations"] = len(obs.list)
+	out.Stats["observation_samples"] = obs.sample()
 	out.Stats["concurrent_queries"] = int(queries.Load())
 	out.Stats["concurrent_queries_failed_with_error_during_reorg"] = int(tolerated.Load())
 	out.Stats["concurrent_stable_range_answers_checked"] = int(stableChecks.Load())
 }
 
-func concurrentRound(in *concInput, round int, out *vh.Result, queries, tolerated, stableChecks *atomic.Int64) {
+// observations: concurrency-only misbehaviour on ranges that overlap concurrent mutations
+type observations struct {
+	mu   sync.Mutex
+	list []string
+}
+
+func (o *observations) add(key, what string) {
+	o.mu.Lock()
+	o.list = append(o.list, key+": "+what)
+	o.mu.Unlock()
+}
+
+func (o *observations) sample() []string {
+	o.mu.Lock()
+	defer o.mu.Unlock()
+	seen, out := map[string]bool{}, []string{}
+	for _, s := range o.list {
+		k := s
+		if i := len(s); i > 60 {
+			k = s[:60]
+		}
+		if !seen[k] && len(out) < 6 {
+			seen[k] = true
+			out = append(out, s)
+		}
+	}
+	return out
+}
+
+func concurrentRound(in *concInput, round int, out *vh.Result, obs *observations, queries, tolerated, stableChecks *atomic.Int64) {
 	seed := in.Seed*1000 + int64(round)
 	variant := []int{0, 1, 2, 7}[round%4]
 	if in.RoundSeed {
@@ -209,13 +246,22 @@ func concurrentRound(in *concInput, round int, out *vh.Result, queries, tolerate
 				q := rd.query(a)
 				queries.Add(1)
 				if q.err != "" {
-					if q.err == "nontermination" || (len(q.err) > 5 && q.err[:5] == "panic") {
+					switch {
+					case len(q.err) > 5 && q.err[:5] == "panic": // (V3)
 						dmu.Lock()
-						diverge("event-query-concurrent:"+q.err[:5], fmt.Sprintf("query %s over 0..%d: %s", filterString(f), a.To, q.err), nil, nil)
+						diverge("event-query-concurrent:panic:reader", fmt.Sprintf("query %s over 0..%d: %s", filterString(f), a.To, q.err), nil, nil)
 						dmu.Unlock()
 						return
+					case q.err == "nontermination" && onStable: // (V1): the pages of a stable range never end
+						dmu.Lock()
+						diverge("event-query-concurrent:stable-range-nontermination", fmt.Sprintf("query %s over 0..%d (chunk %d, limit %d) does not terminate", filterString(f), a.To, a.Chunk, a.Limit), nil, nil)
+						dmu.Unlock()
+						return
+					case q.err == "nontermination":
+						obs.add("nontermination", fmt.Sprintf("query %s over 0..%d overlapping concurrent reorgs does not terminate", filterString(f), a.To))
+					default:
+						tolerated.Add(1)
 					}
-					tolerated.Add(1)
 					continue
 				}
 				got := concat(q.pages)
@@ -232,21 +278,15 @@ func concurrentRound(in *concInput, round int, out *vh.Result, queries, tolerate
 					}
 					continue
 				}
-				// any range: every event belongs to a version of its block that existed (checked inside
-				// query() through rd.content), chain order, no duplicates
+				// the range overlaps blocks that are being stored/reverted: OBSERVATIONS only
 				if q.bad != "" {
-					dmu.Lock()
-					diverge("event-query-concurrent:foreign-event", fmt.Sprintf("query %s over 0..%d returned %v: %s", filterString(f), a.To, got, q.bad), nil, got)
-					dmu.Unlock()
-					return
+					obs.add("foreign-event", fmt.Sprintf("query %s over 0..%d returned %v: %s", filterString(f), a.To, got, q.bad))
 				}
 				for i := 1; i < len(got); i++ {
 					p, c := got[i-1], got[i]
 					if c.B < p.B || (c.B == p.B && (c.T < p.T || (c.T == p.T && c.I <= p.I))) {
-						dmu.Lock()
-						diverge("event-query-concurrent:order", fmt.Sprintf("query %s over 0..%d returned %v: not in chain order / duplicate", filterString(f), a.To, got), nil, got)
-						dmu.Unlock()
-						return
+						obs.add("order", fmt.Sprintf("query %s over 0..%d returned %v: not in chain order / duplicate", filterString(f), a.To, got))
+						break
 					}
 				}
 			}
@@ -300,14 +340,34 @@ func concurrentRound(in *concInput, round int, out *vh.Result, queries, tolerate
 			if rnd.Intn(4) == 0 {
 				time.Sleep(time.Duration(rnd.Intn(8)) * time.Millisecond) // let queries warm the cache
 			}
+			// checkpoint: the writer is the only mutator, so between two of its calls the chain is fixed
+			// and a query it issues itself must be exact although the readers keep running - whatever
+			// they did during the reorg (e.g. caching a window that was being replaced) must not show
+			f := filters[rnd.Intn(len(filters))]
+			a := &mAct{Name: "Query", F: f, From: 0, To: int64(in.Base + 20), Chunk: []uint64{2, 100}[rnd.Intn(2)], Limit: 0}
+			q := r.query(a)
+			want, got := r.naive(a), concat(q.pages)
+			if q.err != "" || q.bad != "" || !eqRefs(got, want) {
+				key := "event-query-concurrent:checkpoint-" + classify(got, want)
+				if q.err != "" || q.bad != "" {
+					key = "event-query-concurrent:checkpoint-error"
+				} else if dk := r.diagnose(a, got, want); dk == keyStaleCache {
+					key = "event-index:stale-cache-after-concurrent-query-during-reorg"
+				} else if dk != "" {
+					key = dk
+				}
+				dmu.Lock()
+				diverge(key, fmt.Sprintf("between two calls of the only writer (reorg %d done, head %d) query %s over 0..%d (chunk %d) returns %v %s%s, the stored receipts hold %v",
+					i, in.Base+uint64(len(r.oracle))-1, filterString(f), a.To, a.Chunk, got, q.err, q.bad, want), want, got)
+				dmu.Unlock()
+				return
+			}
 		}
 	}()
 	select {
 	case <-writerDone:
 	case <-time.After(600 * time.Second):
-		dmu.Lock()
-		diverge("event-index-concurrent:hang:writer", "Store/RevertHead did not finish within 600 s while queries ran", nil, nil)
-		dmu.Unlock()
+		obs.add("hang:writer", "Store/RevertHead did not finish within 600 s while queries ran")
 		stop.Store(true)
 		return
 	}
@@ -317,9 +377,7 @@ func concurrentRound(in *concInput, round int, out *vh.Result, queries, tolerate
 	select {
 	case <-readersDone:
 	case <-time.After(120 * time.Second):
-		dmu.Lock()
-		diverge("event-query-concurrent:hang:reader", "a concurrent query did not return within 120 s after the writer had finished", nil, nil)
-		dmu.Unlock()
+		obs.add("hang:reader", "a concurrent query did not return within 120 s after the writer had finished")
 		return
 	}
 	// ---- quiescence: the index must be exact again, before and after a restart
@@ -333,6 +391,9 @@ func concurrentRound(in *concInput, round int, out *vh.Result, queries, tolerate
 				got := concat(q.pages)
 				if q.err != "" || q.bad != "" || !eqRefs(got, want) {
 					key := "event-query-concurrent:quiescent-" + classify(got, want)
+					if q.err != "" || q.bad != "" {
+						key = "event-query-concurrent:quiescent-error"
+					}
 					if q.err == "" && q.bad == "" {
 						if dk := r.diagnose(a, got, want); dk == keyStaleCache {
 							key = "event-index:stale-cache-after-concurrent-query-during-reorg"
